@@ -217,3 +217,55 @@ func ParseUintBase(s string, base int) (uint64, bool) {
 	}
 	return n, true
 }
+
+// spaceAt returns the length of the UTF-8 encoding of a white-space character (unicode.IsSpace)
+// starting at s[i], or 0. The encodings all begin with a start byte, so a byte-pattern match is
+// exact from the front and from the back.
+func spaceAt(s string, i, end int) int {
+	c := s[i]
+	if c == ' ' || ('\t' <= c && c <= '\r') {
+		return 1
+	}
+	if i+1 < end && c == 0xC2 && (s[i+1] == 0x85 || s[i+1] == 0xA0) {
+		return 2
+	}
+	if i+2 < end {
+		d, e := s[i+1], s[i+2]
+		switch {
+		case c == 0xE1 && d == 0x9A && e == 0x80: // U+1680
+			return 3
+		case c == 0xE2 && d == 0x80 && (0x80 <= e && e <= 0x8A || e == 0xA8 || e == 0xA9 || e == 0xAF): // U+2000..200A, 2028, 2029, 202F
+			return 3
+		case c == 0xE2 && d == 0x81 && e == 0x9F: // U+205F
+			return 3
+		case c == 0xE3 && d == 0x80 && e == 0x80: // U+3000
+			return 3
+		}
+	}
+	return 0
+}
+
+// StringsTrimSpace models strings.TrimSpace.
+func StringsTrimSpace(s string) string {
+	start, end := 0, len(s)
+	for start < end {
+		n := spaceAt(s, start, end)
+		if n == 0 {
+			break
+		}
+		start += n
+	}
+	for end > start {
+		n := 0
+		for k := 1; k <= 3 && n == 0; k++ {
+			if end-k >= start && spaceAt(s, end-k, end) == k {
+				n = k
+			}
+		}
+		if n == 0 {
+			break
+		}
+		end -= n
+	}
+	return s[start:end]
+}
